@@ -6,8 +6,8 @@ package ed448_test
 // every exported route against the RFC 8032 transcription ref/eddsa (big.Int,
 // SHAKE256 from x/crypto). Units:
 //
-//	refcheck448  binds ref/eddsa to RFC 8032 section 7.4/7.5 (the vectors in this
-//	             package's rfc8032_test.go) and testdata/wycheproof_Ed448.json
+//	refcheck448  binds ref/eddsa to RFC 8032 section 7.4/7.5 (the vectors of
+//	             ref/testdata/c05_rfc8032.json) and testdata/wycheproof_Ed448.json
 //	sign448      public key and signature bytes for seeds x messages x contexts
 //	verify448    three-valued verification oracle on every enumerated alteration
 //
@@ -192,11 +192,55 @@ func c05ProjCheck(v *eddsa.Variant, r *verifmc.Run) string {
 	return ""
 }
 
+// c05Vec is one RFC 8032 section 7 vector from the fixture
+// $VERIF_DIR/ref/testdata/c05_rfc8032.json (the harness does not use the
+// repository's own test helpers or literals).
+type c05Vec struct {
+	Name, Scheme          string
+	Ph                    bool
+	Sk, Pk, Sig, Msg, Ctx string
+}
+
+func (v c05Vec) bytes(t *testing.T) (sk, pk, sig, msg, ctx []byte) {
+	dec := func(s string) []byte {
+		b, err := hex.DecodeString(s)
+		if err != nil {
+			t.Fatalf("refcheck: bad hex in RFC 8032 fixture: %v", err)
+		}
+		return b
+	}
+	return dec(v.Sk), dec(v.Pk), dec(v.Sig), dec(v.Msg), dec(v.Ctx)
+}
+
+func c05RFCVectors(t *testing.T, curve string) []c05Vec {
+	dir := os.Getenv("VERIF_DIR")
+	if dir == "" {
+		dir = "/verif"
+	}
+	raw, err := os.ReadFile(dir + "/ref/testdata/c05_rfc8032.json")
+	if err != nil {
+		t.Fatalf("refcheck: %v", err)
+	}
+	var f struct {
+		Vectors map[string][]c05Vec `json:"vectors"`
+	}
+	if err := json.Unmarshal(raw, &f); err != nil {
+		t.Fatalf("refcheck: %v", err)
+	}
+	return f.Vectors[curve]
+}
+
 func TestVerifC05_refcheck448(t *testing.T) {
 	r := verifmc.Start(t, "C05", "refcheck448")
 	defer r.Finish()
-	r.Rule("reference binding: RFC 8032 7.4-7.5 vectors (rfc8032_test.go), Wycheproof Ed448 file, projective vs affine scalar multiplication")
-	for _, vec := range vectorsEd448 {
+	r.Rule("reference binding: RFC 8032 7.4-7.5 vectors (fixture ref/testdata/c05_rfc8032.json), Wycheproof Ed448 file, projective vs affine scalar multiplication")
+	for _, rv := range c05RFCVectors(t, "ed448") {
+		vec := struct {
+			name                  string
+			ph                    bool
+			sk, pk, sig, msg, ctx []byte
+		}{name: rv.Name, ph: rv.Ph}
+		vec.sk, vec.pk, vec.sig, vec.msg, vec.ctx = rv.bytes(t)
 		v := eddsa.Ed448
 		if vec.ph {
 			v = eddsa.Ed448ph
